@@ -8,3 +8,20 @@ claim("C01", "Lean 4: verified slab-decomposition region checker (slabCheck_soun
       "every nested expression denotes its pointwise meaning (induction), and the region checker is sound: an accepted result is right at every point off the edges outside finitely many vertical lines, a rejection yields a witness point. "
       "Boundary recombination (FollowPath) is not modelled: C01_partial — each executed result on generated general-position polygon expressions is certified for all points; curved/float operands are sampled.",
       "FollowPath is certified per run, not proved for all inputs; curved results sampled only.", "DESIGN.md §4, §8 C01")
+claim("C04", "Lean 4: open Newton-Cotes exactness table (decide +kernel, n<=24) lifted by linearity to all polynomials, degree-count theorem vertical = exactVertical, closed-form Green anchors + exact differential correspondence",
+      "Proved: the quadrature the code uses is exact for every polygon and all exponents a+b<=19, for quadratic boundaries up to a+b<=3, for cubic boundaries for the area (and provably NOT beyond: a kernel-checked counterexample), "
+      "closed forms for rectangles/triangles/parabola segments, reversal negates, additivity over curves. The real IntegrateShape.polynomial/area/float are compared for exact Fraction equality with the model's exact integral on shapes of all kinds, "
+      "and with the model of the code's own quadrature on curved rational shapes.",
+      "Green's theorem for general regions is mathematics outside the model; float inputs compared to 1e-9.", "DESIGN.md §8 C04")
+claim("C08", "Lean 4: heap/object-graph model with separation invariant and frame theorem proved by induction over all operation histories + decide-checked freshness of translated short-cut returns + history correspondence",
+      "Proved for all histories: distinct objects own disjoint Point2D cells (sep_runOps), a mutation through one object changes no other (frame), copies are value-equal and fresh; the short-cut returns regenerated from shape.py are all copies or singletons. "
+      "Random histories on the real JordanCurve/SimpleShape objects are compared exactly with the heap model, Point2D identity sets of distinct objects must be disjoint, and every operator/query on shapes of all kinds is followed by region-level snapshot comparison and mutate-one-compare-other.",
+      "The heap model covers polygons (straight segments); operators on shapes are checked behaviourally.", "DESIGN.md §8 C08")
+claim("C09", "Lean 4: heap model theorem that move/scale/rotate update every id-deduplicated cell exactly once (any sharing pattern), inverse round trips, area/winding covariance lemmas + exact correspondence on shapes of all kinds",
+      "Proved: transform geometry = pointwise image for every sharing pattern of junction points, inverse transformations restore the geometry, area scales by sx*sy, winding numbers are invariant under translation and positive scaling (Props C09, C12). "
+      "Real shapes of every kind are transformed by random rational move/scale sequences and compared exactly with the affine image (vertices, Fraction types, membership at arrangement cells, area, moments, identity of the returned object, == after the inverse); rotations to 1e-9.",
+      "Rotation invariance of the ray-crossing definition of interior is not proved (checked).", "DESIGN.md §8 C09")
+claim("C10", "Lean 4: cache-consistency invariant of the heap model proved over all histories (and its negation for the unrepaired code by a kernel-checked 3-step witness) + live-vs-deepcopy history correspondence",
+      "Proved: in every reachable state a cached signed length is the length of the current geometry, so the length query answers like a fresh deep copy (cacheOK_runOps, lenAnswer_eq_fresh_copy); the pre-fix behaviour is refuted by `stale_counterexample`. "
+      "Random histories on real objects: after every step every live object answers length/box/orientation/membership exactly like a fresh deep copy and like the model; operators repeated after unrelated queries; same script in fresh processes under several PYTHONHASHSEED values.",
+      "Process-level determinism is exercised, not proved.", "DESIGN.md §8 C10")
